@@ -54,6 +54,10 @@ type c01bCase struct {
 	FarExpiry      bool        `json:"farExpiry,omitempty"` // expiry in 2090 instead
 	Revoked        bool        `json:"revoked,omitempty"`
 	ForeignKey     bool        `json:"foreignKey,omitempty"` // proof made with (and naming) a key of ANOTHER, active DID document
+	// how that other DID relates to the issuer's: "" = unrelated | path | host-suffix | suffix | prefix | case (near-miss DIDs,
+	// resolvable, own working key) | kid-bare | kid-double-fragment (a foreign key registered under the issuer's DID without
+	// fragment / under issuer#a#b)
+	Foreign string `json:"foreign,omitempty"`
 	Trusted        bool        `json:"trusted"`
 	TrustOtherType bool        `json:"trustOtherType,omitempty"` // trust entry exists but for another credential type
 	AllowUntrusted bool        `json:"allowUntrusted"`
@@ -69,10 +73,17 @@ func c01bGen(t *rapid.T) c01bCase {
 		Kind:           rapid.SampledFrom([]string{"org", "ura"}).Draw(t, "kind"),
 		KeySel:         rapid.Uint32Range(0, 7).Draw(t, "key"),
 		Revoked:        rapid.IntRange(0, 9).Draw(t, "revoked") == 0,
-		ForeignKey:     rapid.IntRange(0, 11).Draw(t, "foreignKey") == 0,
+		ForeignKey:     rapid.IntRange(0, 5).Draw(t, "foreignKey") == 0,
+		Foreign:        rapid.SampledFrom([]string{"", "path", "host-suffix", "suffix", "prefix", "case", "kid-bare", "kid-double-fragment"}).Draw(t, "foreign"),
 		Trusted:        rapid.IntRange(0, 9).Draw(t, "trusted") > 1,
 		TrustOtherType: rapid.IntRange(0, 6).Draw(t, "trustOther") == 0,
 		AllowUntrusted: rapid.IntRange(0, 9).Draw(t, "allowUntrusted") > 6,
+	}
+	if c.ForeignKey {
+		// nothing else should reject such a credential: the signer's identity is what is being judged
+		c.Revoked, c.Trusted, c.TrustOtherType = false, true, false
+	} else {
+		c.Foreign = ""
 	}
 	n := rapid.IntRange(0, 6).Draw(t, "nhist")
 	total := 0
@@ -132,10 +143,27 @@ func c01bRun(x *h.Ctx, c c01bCase) {
 		ctrlDead = c01Ptr(c01T0.Add(time.Duration(c.CtrlDeactAt) * time.Second))
 		ctrl.publish(x, *ctrlDead, nil, true)
 	}
-	// an unrelated, always active DID document whose key may be (mis)used to sign the credential
-	foreign := f.newDID(x)
-	foreign.newKey(x)
-	foreign.publish(x, c01T0.Add(-50*time.Second), []int{0}, false)
+	// another, always active DID document whose key may be (mis)used to sign the credential: unrelated, or a near miss
+	// of the issuer's DID; or a foreign key that merely carries a key id inside the issuer's DID
+	foreignKID := ""
+	if c.ForeignKey {
+		switch c.Foreign {
+		case "path", "host-suffix", "suffix", "prefix", "case":
+			foreignKID = f.newNearMiss(x, issuer, c.Foreign, c01T0.Add(-50*time.Second)).keys[0].KID
+		case "kid-bare":
+			foreignKID = f.forgedKID(x, issuer.DID.String())
+		case "kid-double-fragment":
+			foreignKID = f.forgedKID(x, issuer.DID.String()+"#a#b")
+			if _, err := ssi.ParseURI(foreignKID); err != nil {
+				foreignKID = f.forgedKID(x, issuer.DID.String()+"#a%23b")
+			}
+		default:
+			foreign := f.newDID(x)
+			foreign.newKey(x)
+			foreign.publish(x, c01T0.Add(-50*time.Second), []int{0}, false)
+			foreignKID = foreign.keys[0].KID
+		}
+	}
 	// history
 	issuer.newKey(x)
 	versions := []c01bVersion{{at: c01T0, assertion: []int{0}}}
@@ -199,7 +227,8 @@ func c01bRun(x *h.Ctx, c c01bCase) {
 	spec := c01CredSpec{Format: c.Format, Issuer: issuer.DID.String(), KID: issuer.keys[key].KID,
 		ID: fmt.Sprintf("%s#cred-%d", issuer.DID.String(), f.seq.Add(1)), Issued: issued, Expires: expires}
 	if c.ForeignKey {
-		spec.KID = foreign.keys[0].KID
+		spec.KID = foreignKID
+		x.Class("foreign-signer=" + c01bForeignName(c.Foreign))
 	}
 	if c.Kind == "ura" {
 		spec.Type, spec.Contexts = "NutsUraCredential", []string{"https://nuts.nl/credentials/2024"}
@@ -246,7 +275,7 @@ func c01bRun(x *h.Ctx, c c01bCase) {
 			return mustReject, "revoked"
 		}
 		if c.ForeignKey {
-			return mustReject, "proof-by-key-of-another-did"
+			return mustReject, "proof-by-key-of-another-did:" + c01bForeignName(c.Foreign)
 		}
 		if !trusted && !c.AllowUntrusted {
 			return mustReject, "untrusted"
@@ -392,6 +421,14 @@ func c01bRun(x *h.Ctx, c c01bCase) {
 	for _, w := range whys {
 		x.Class("ref=" + w)
 	}
+}
+
+func c01bForeignName(v string) string {
+	switch v {
+	case "path", "host-suffix", "suffix", "prefix", "case", "kid-bare", "kid-double-fragment":
+		return v
+	}
+	return "unrelated"
 }
 
 func c01bErrClass(err error) string {
